@@ -896,7 +896,9 @@ impl Tree {
         {
             let part = self.get_partition(&node.id)?;
 
-            if part.count_ones(..) == 1 {
+            // A split is informative only if both sides hold at least two leaves
+            let ones = part.count_ones(..);
+            if ones < 2 || ones + 2 > part.len() {
                 continue;
             }
 
